@@ -476,7 +476,7 @@ impl ToBitStream for TrackCDDA {
 }
 
 /// A non-CD-DA CUESHEET track
-pub type TrackNonCDDA = Track<u64, NonZero<u8>, IndexVec<256, u64>>;
+pub type TrackNonCDDA = Track<u64, NonZero<u8>, IndexVec<255, u64>>;
 
 impl FromBitStream for TrackNonCDDA {
     type Error = Error;
